@@ -8,10 +8,10 @@ def consts():
     if MC is None: MC = F.G.load('MqttConsts')
     return MC
 
-def build_mqtt(name):
+def build_mqtt(name, extra_flags=()):
     srcs = [s for s in F.device_sources('mqtt') if not s.endswith('/supla_esp_mqtt.c')]
     srcs += [os.path.join(F.VERIF, 'harness', 'wrap', 'c16_mqtt_wrap.c'), os.path.join(F.VERIF, 'harness', 'doubles', 'c16_mqtt_board.c')]
-    return F.build_c(name, os.path.join(F.VERIF, 'harness', 'drv', name + '.c'), config='mqtt', sources=srcs)
+    return F.build_c(name, os.path.join(F.VERIF, 'harness', 'drv', name + '.c'), config='mqtt', sources=srcs, extra_flags=list(extra_flags))
 
 # ---------------- MQTT 3.1.1 encoders (broker side)
 def enc_rl(n):
